@@ -57,6 +57,9 @@ func (s *Server) manifestDelete(repoStr, arg string) http.HandlerFunc {
 		// if referrers is enabled, remove entry from the referrers list
 		// deleting a tag leaves the manifest in the repository, so it remains a referrer to its subject
 		if *s.conf.API.Referrer.Enabled && !types.RefTagRE.MatchString(arg) {
+			// the referrers response and the index entry are updated together, a concurrent push of the same manifest must not interleave
+			s.referrerMu.Lock()
+			defer s.referrerMu.Unlock()
 			// wrap in a func to allow a return from errors without breaking the actual delete
 			err = func() error {
 				rdr, err := repo.BlobGet(desc.Digest)
@@ -387,6 +390,11 @@ func (s *Server) manifestPut(repoStr, arg string) http.HandlerFunc {
 			desc.Annotations = map[string]string{
 				types.AnnotRefName: tag,
 			}
+		}
+		if subject != "" {
+			// the index entry and the referrers response are updated together, concurrent updates to the same subject would lose entries
+			s.referrerMu.Lock()
+			defer s.referrerMu.Unlock()
 		}
 		err = repo.IndexInsert(desc, addOpts...)
 		if err != nil {
